@@ -23,60 +23,14 @@ Definition M_frame_reindex (hi hc : bool) (di dc ddi ddc : dtype) (index columns
     (if hc then objpath_2d dc ddc else objpath_1d dc ddc)
     index columns t new_index new_columns.
 
-(* ---- TypeBlocks._ufunc_binary_operator ---- *)
-Definition width (b : vblk) : nat := length (k_cols val b).
-Definition total_width (t : list vblk) : nat := fold_right (fun b n => (width b + n)%nat) 0%nat t.
-
-Definition nat_list_eqb := list_eqb Nat.eqb.
-
-(* block_compatible(axis=None): equal shapes, pairwise equal block shapes (a 1-D block is (rows, 1)) *)
-Definition block_compatible (a b : list vblk) : bool := nat_list_eqb (map width a) (map width b).
-
-(* _reblock_signature: widths of the runs of equal dtype *)
-Fixpoint sig_go (cur : dtype) (n : nat) (t : list vblk) : list nat :=
-  match t with
-  | [] => [n]
-  | b :: r => if dtype_eqb (k_dtype val b) cur then sig_go cur (n + width b)%nat r
-              else n :: sig_go (k_dtype val b) (width b) r
-  end.
-Definition reblock_sig (t : list vblk) : list nat :=
-  match t with [] => [] | b :: r => sig_go (k_dtype val b) (width b) r end.
-
-Definition reblock_compatible (a b : list vblk) : bool :=
-  Nat.eqb (total_width a) (total_width b) && nat_list_eqb (reblock_sig a) (reblock_sig b).
-
-(* consolidate_blocks: a run of one block is passed through, longer runs are concatenated (2-D) *)
-Fixpoint reblock_go (cur : dtype) (grp : list vblk) (t : list vblk) : list vblk :=
-  let emit := match grp with
-              | [g] => g
-              | _ => mkb cur false (flat_map (k_cols val) grp)
-              end in
-  match t with
-  | [] => [emit]
-  | b :: r => if dtype_eqb (k_dtype val b) cur then reblock_go cur (grp ++ [b]) r
-              else emit :: reblock_go (k_dtype val b) [b] r
-  end.
-Definition reblock (t : list vblk) : list vblk :=
-  match t with [] => [] | b :: r => reblock_go (k_dtype val b) [b] r end.
-
-(* TypeBlocks.values: one 2-D array of the row dtype (resolve_dtype_iter over the blocks, through the
-   regenerated resolve_dtype); a single block is returned as it is *)
-Definition row_dtype (t : list vblk) : dtype :=
-  match t with
-  | [] => DFlt 8
-  | b :: r => fold_left (fun d x => match resolve_dtype (PDtype d) (PDtype (k_dtype val x)) with
-                                    | PDtype q => q | _ => DObj end) r (k_dtype val b)
-  end.
-Definition tb_values (t : list vblk) : vblk :=
-  match t with
-  | [b] => mkb (k_dtype val b) false (k_cols val b)
-  | _ => let d := row_dtype t in mkb d false (map (map (cast_to d)) (flat_map (k_cols val) t))
-  end.
+(* ---- TypeBlocks._ufunc_binary_operator (generic model M_tb_binop_g in SF/FrameAlign.v) ---- *)
+Definition width (b : vblk) : nat := bwidth val b.
+Definition total_width (t : list vblk) : nat := total_bwidth val t.
 
 Definition opt_cols := list (list (option val)).
 
 Definition op_cols (f : val -> val -> option val) (a b : list (list val)) : opt_cols :=
-  map2 (list val) (list (option val)) (fun x y => map2 val (option val) f x y) a b.
+  FrameAlign.op_cols val (option val) f a b.
 
 Fixpoint collect_cols (l : opt_cols) : res (list (list val)) :=
   match l with
@@ -87,24 +41,15 @@ Fixpoint collect_cols (l : opt_cols) : res (list (list val)) :=
               end
   end.
 
-(* block pairs -> result columns *)
-Fixpoint op_blocks (f : val -> val -> option val) (a b : list vblk) : opt_cols :=
-  match a, b with
-  | x :: xt, y :: yt => op_cols f (k_cols val x) (k_cols val y) ++ op_blocks f xt yt
-  | _, _ => []
-  end.
-
 (* TypeBlocks.from_blocks(<no blocks>) without a shape_reference (type_blocks.py:2361-2372) *)
 Definition no_columns (r : res (list (list val))) : res (list (list val)) :=
   match r with Ok [] => Err "ErrorInitTypeBlocks" | _ => r end.
 
 Definition M_tb_binop_tb (f : val -> val -> option val) (a b : list vblk) : res (list (list val)) :=
-  no_columns
-  (if block_compatible a b then collect_cols (op_blocks f a b)
-  else if Nat.eqb (total_width a) (total_width b) then
-    if reblock_compatible a b then collect_cols (op_blocks f (reblock a) (reblock b))
-    else collect_cols (op_blocks f [tb_values a] [tb_values b])
-  else Err "NotImplementedError").
+  no_columns (match M_tb_binop_g val (option val) f a b with
+              | Ok cols => collect_cols cols
+              | Err e => Err e
+              end).
 
 (* 1-D operand applied to every row (axis 0): column j pairs with other[j] *)
 Definition M_tb_binop_rowwise (f : val -> val -> option val) (a : list vblk) (other : list val) : res (list (list val)) :=
